@@ -1176,6 +1176,8 @@ def main(outfile):
     py2lean_persist.main(os.path.join(os.path.dirname(outfile), 'TranslatedPersist2.lean'), sys.modules[__name__])
     import py2lean_validate                                      # separate module: _Validation / Input / InputExp (C17)
     py2lean_validate.main_validate(os.path.join(os.path.dirname(outfile), 'TranslatedValidate.lean'), write_if_changed)
+    import py2lean_filters                                       # separate module: the filter objects (C16)
+    py2lean_filters.main_filters(os.path.join(os.path.dirname(outfile), 'TranslatedFilterObjs.lean'), sys.modules[__name__])
 
 
 if __name__ == '__main__':
